@@ -16,6 +16,7 @@ CONSTANTS
   LockNames <- MC_LockNames
   CallerIds <- MC_CallerIds
   Files <- MC_Files
+  WithEdits = FALSE
   WithReload = FALSE
   Lookups = FALSE
   Phased = FALSE
